@@ -25,7 +25,8 @@ CFG = dict(
          "bidi stream) x probe unary call afterwards with and without deadline; callers abandoning with m = 0..4 (8) responses unread by "
          "cancel / deadline / just not reading (back-pressure by a live caller, released at the end) x others x probe; peers that send more than "
          "expected (replies to a unary call whose caller has gone, duplicate replies, bodies after the trailer, unread bodies then cancel, 1..4 "
-         "(8) extra) x probe; the HALF-CLOSE delivered before the handler returns with k of n messages read (k = n-1: the half-close itself waits in the "
+         "(8) extra) x probe; 2..5 replies to ONE unary call handed over in a burst (+ one later) then probe unary + stream; a streaming call with a deadline whose handler "
+         "stopped consuming and does not return, read loop parked: the hold ends at the handler's deadline, probe and others complete; the HALF-CLOSE delivered before the handler returns with k of n messages read (k = n-1: the half-close itself waits in the "
          "forwarding select) x others x probe + a new stream; per-envelope write faults on the teardown paths: exactly the RST_STREAM Write of the abandoned stream is refused (or "
          "blocks and fails at its own 30 s deadline), reads and later Writes work: cancel / deadline / abort on undecodable metadata x 0..3 unread x "
          "2..5 further envelopes for the dead stream (bodies, trailer) x probe, against a scripted peer and end to end (handler never learns, keeps "
